@@ -82,7 +82,7 @@ func (d *Decoder) decodeOBUs(pkt *rtp.Packet) ([][]byte, error) {
 			}
 			payload = payload[n:]
 
-			if size == 0 || len(payload) < int(size) {
+			if size == 0 || uint64(len(payload)) < uint64(size) {
 				d.resetFragments()
 				return nil, fmt.Errorf("invalid OBU size")
 			}
